@@ -351,6 +351,14 @@ def make_strategy(symbol, script, ctx):
         def _apply(self, a):
             if not a:
                 return
+            # a reaction that triggers a fill whose hook reacts again could ping-pong forever inside one candle:
+            # the scripted strategy reacts at most 4 times per strategy step (a rule of the program, not of jesse)
+            key = self.index
+            if getattr(self, '_react_idx', None) != key:
+                self._react_idx, self._react_n = key, 0
+            self._react_n += 1
+            if self._react_n > 4:
+                return
             k = a['kind']
             long = self.is_long
             q = abs(self.position.qty)
